@@ -104,3 +104,66 @@ mod state;
 mod storage;
 mod telemetry;
 mod writer;
+
+/// Verification hooks: thin forwarding wrappers around crate-private items (only with `--cfg metrics_verif`).
+#[cfg(metrics_verif)]
+#[doc(hidden)]
+#[allow(missing_docs, clippy::all, clippy::pedantic)]
+pub mod verif {
+    use metrics::{CounterFn as _, GaugeFn as _, Key, Label};
+    use metrics_util::registry::Storage as _;
+    use std::sync::Arc;
+
+    pub struct Writer(crate::writer::PayloadWriter);
+    impl Writer {
+        pub fn new(max_payload_len: usize, with_length_prefix: bool) -> Self {
+            Writer(crate::writer::PayloadWriter::new(max_payload_len, with_length_prefix))
+        }
+        pub fn write_counter(&mut self, key: &Key, value: u64, ts: Option<u64>, prefix: Option<&str>, gl: &[Label]) -> (u64, u64) {
+            let r = self.0.write_counter(key, value, ts, prefix, gl);
+            (r.payloads_written(), r.points_dropped())
+        }
+        pub fn write_gauge(&mut self, key: &Key, value: f64, ts: Option<u64>, prefix: Option<&str>, gl: &[Label]) -> (u64, u64) {
+            let r = self.0.write_gauge(key, value, ts, prefix, gl);
+            (r.payloads_written(), r.points_dropped())
+        }
+        pub fn write_histogram(&mut self, key: &Key, values: &[f64], rate: Option<f64>, prefix: Option<&str>, gl: &[Label]) -> (u64, u64) {
+            let r = self.0.write_histogram(key, values.iter().copied(), rate, prefix, gl);
+            (r.payloads_written(), r.points_dropped())
+        }
+        pub fn write_distribution(&mut self, key: &Key, values: &[f64], rate: Option<f64>, prefix: Option<&str>, gl: &[Label]) -> (u64, u64) {
+            let r = self.0.write_distribution(key, values.iter().copied(), rate, prefix, gl);
+            (r.payloads_written(), r.points_dropped())
+        }
+        /// Drains all payloads (one flush cycle), handing each to `f`.
+        pub fn drain(&mut self, mut f: impl FnMut(&[u8])) -> usize {
+            let mut payloads = self.0.payloads();
+            let n = payloads.len();
+            while let Some(p) = payloads.next_payload() {
+                f(p);
+            }
+            n
+        }
+    }
+
+    pub struct Counter(Arc<crate::storage::AtomicCounter>);
+    impl Counter {
+        pub fn new() -> Self {
+            Counter(crate::storage::ClientSideAggregatedStorage::new(false, 0).counter(&Key::from_static_name("")))
+        }
+        pub fn increment(&self, v: u64) { self.0.increment(v) }
+        pub fn absolute(&self, v: u64) { self.0.absolute(v) }
+        pub fn flush(&self) -> (u64, u64) { self.0.flush() }
+    }
+
+    pub struct Gauge(Arc<crate::storage::AtomicGauge>);
+    impl Gauge {
+        pub fn new() -> Self {
+            Gauge(crate::storage::ClientSideAggregatedStorage::new(false, 0).gauge(&Key::from_static_name("")))
+        }
+        pub fn increment(&self, v: f64) { self.0.increment(v) }
+        pub fn decrement(&self, v: f64) { self.0.decrement(v) }
+        pub fn set(&self, v: f64) { self.0.set(v) }
+        pub fn flush(&self) -> (f64, u64) { self.0.flush() }
+    }
+}
